@@ -276,8 +276,11 @@ Proof.
       apply (Hold _ i en (fun c' Hne => upd_other _ _ _ _ Hne) Hi Hl).
     + intros k. rewrite Heff, Hat. pose proof (i1_ledger s H1 k) as Hk.
       apply cnt_eq; unfold ledger; cbn [n_pass n_block n_done n_err n_rt n_gauge]; rewrite wsum_app; cbn [wsum fold_right];
+        destruct (hit res inb k) eqn:Eh; cbn [n_pass n_block n_done n_err n_rt n_gauge node_block node_pass]; rewrite Hk;
+        unfold ledger; cbn [n_pass n_block n_done n_err n_rt n_gauge];
+        match goal with |- context [wsum ?f (ents s)] => generalize (wsum f (ents s)); intro end;
         unfold w_pass, w_block, w_done, w_err, w_rt, w_gauge, member; cbn [g_res g_inb g_passed e_exited g_batch g_err g_start g_end];
-        destruct (hit res inb k); cbn; rewrite Hk; cbn; lia.
+        rewrite ?Eh; cbn; lia.
   - (* admitted *)
     destruct Heff as (Hb0 & Heff).
     constructor; cbn [ents ctxs nodes].
@@ -286,6 +289,419 @@ Proof.
       * cbn. rewrite upd_same, Hb0. repeat split; auto.
     + intros k. rewrite Heff, Hat. pose proof (i1_ledger s H1 k) as Hk.
       apply cnt_eq; unfold ledger; cbn [n_pass n_block n_done n_err n_rt n_gauge]; rewrite wsum_app; cbn [wsum fold_right];
+        destruct (hit res inb k) eqn:Eh; cbn [n_pass n_block n_done n_err n_rt n_gauge node_block node_pass]; rewrite Hk;
+        unfold ledger; cbn [n_pass n_block n_done n_err n_rt n_gauge];
+        match goal with |- context [wsum ?f (ents s)] => generalize (wsum f (ents s)); intro end;
         unfold w_pass, w_block, w_done, w_err, w_rt, w_gauge, member; cbn [g_res g_inb g_passed e_exited g_batch g_err g_start g_end];
-        rewrite Hb0; destruct (hit res inb k); cbn; rewrite Hk; cbn; lia.
+        rewrite ?Eh, ?Hb0; cbn; lia.
 Qed.
+
+Definition weights (k : Z) (en : ent) : Z * Z * Z * Z * Z * Z :=
+  (w_pass k en, w_block k en, w_done k en, w_err k en, w_rt k en, w_gauge k en).
+
+Lemma ledger_upd_nth_same k n g es en :
+  nth_error es n = Some en -> weights k (g en) = weights k en -> ledger k (upd_nth n g es) = ledger k es.
+Proof.
+  intros Hn Hw. unfold weights in Hw. injection Hw as H1 H2 H3 H4 H5 H6.
+  apply cnt_eq; unfold ledger; cbn [n_pass n_block n_done n_err n_rt n_gauge]; rewrite (wsum_upd_nth _ _ _ _ _ Hn); lia.
+Qed.
+
+(* an operation that rewrites one entry record (and possibly that entry's own context) *)
+Lemma upd_ent_inv01 s e en cx g :
+  Inv s -> Inv01 s -> nth_error (ents s) (Z.to_nat e) = Some en ->
+  (forall k, weights k (g en) = weights k en) ->
+  (e_exited (g en) = false -> e_exited en = false /\
+     x_node (cx (e_ctx (g en))) = true /\ g_passed (g en) = true /\
+     Forall (fun h => ~ h_panics h) (e_handlers (g en)) /\ 0 <= g_res (g en)) ->
+  (forall i en', i <> Z.to_nat e -> nth_error (ents s) i = Some en' -> e_exited en' = false -> cx (e_ctx en') = ctxs s (e_ctx en')) ->
+  Inv01 (with_ctx_ents s cx (set_ent s e g)).
+Proof.
+  intros HI H1 Hn Hw Hlive Hother. constructor; cbn [with_ctx_ents ents ctxs nodes].
+  - intros i en' Hi Hl. unfold set_ent in Hi. destruct (Nat.eq_dec (Z.to_nat e) i) as [Heq|Hne].
+    + subst i. rewrite (nth_error_upd_nth_same _ _ _ _ Hn) in Hi. injection Hi as <-. apply Hlive in Hl. tauto.
+    + rewrite nth_error_upd_nth_other in Hi by auto. rewrite (Hother i en' (not_eq_sym Hne) Hi Hl).
+      apply (i1_live s H1 i en' Hi Hl).
+  - intros k. rewrite (i1_ledger s H1 k). unfold set_ent. symmetry. apply (ledger_upd_nth_same k _ g _ en Hn (Hw k)).
+Qed.
+
+Lemma do_trace_inv01 s e err : Inv s -> Inv01 s -> Inv01 (do_trace s e err).
+Proof.
+  intros HI H1. unfold do_trace. destruct (get_ent s e) as [en|] eqn:Eg; [|exact H1].
+  destruct ((err =? 0) || e_exited en) eqn:Ec; [exact H1|].
+  apply orb_false_iff in Ec. destruct Ec as [Ez Ex].
+  apply get_ent_some in Eg. destruct Eg as [He Hn].
+  destruct (i1_live s H1 _ en Hn Ex) as (Hnode & Hpass & Hh & Hres).
+  apply (upd_ent_inv01 s e en _ (set_g_err err) HI H1 Hn).
+  - intros k. unfold weights, w_pass, w_block, w_done, w_err, w_rt, w_gauge, member. cbn. rewrite Ex, !andb_false_r. reflexivity.
+  - intros _. cbn. rewrite upd_same. cbn. auto.
+  - intros i en' Hne Hi Hl. rewrite upd_other; [reflexivity|].
+    apply (live_ctx_distinct s i (Z.to_nat e) en' en HI Hi Hn Hl Ex Hne).
+Qed.
+
+Lemma do_callee_inv01 s e a : Inv s -> Inv01 s -> Inv01 (do_callee s e a).
+Proof.
+  intros HI H1. unfold do_callee. destruct (get_ent s e) as [en|] eqn:Eg; [|exact H1].
+  destruct ((a =? 0) || e_exited en) eqn:Ec; [exact H1|].
+  apply orb_false_iff in Ec. destruct Ec as [Ez Ex].
+  apply get_ent_some in Eg. destruct Eg as [He Hn].
+  destruct (i1_live s H1 _ en Hn Ex) as (Hnode & Hpass & Hh & Hres).
+  apply (upd_ent_inv01 s e en _ (set_g_addr a) HI H1 Hn).
+  - intros k. reflexivity.
+  - intros _. cbn. rewrite upd_same. cbn. auto.
+  - intros i en' Hne Hi Hl. rewrite upd_other; [reflexivity|].
+    apply (live_ctx_distinct s i (Z.to_nat e) en' en HI Hi Hn Hl Ex Hne).
+Qed.
+
+Lemma do_when_exit_inv01 s e hid hb : hb <> HPanic -> Inv s -> Inv01 s -> Inv01 (do_when_exit s e hid hb).
+Proof.
+  intros Hb HI H1. unfold do_when_exit. destruct (get_ent s e) as [en|] eqn:Eg; [|exact H1].
+  apply get_ent_some in Eg. destruct Eg as [He Hn].
+  apply (upd_ent_inv01 s e en _ (add_handler (hid, hb)) HI H1 Hn).
+  - intros k. reflexivity.
+  - cbn. intros Ex. destruct (i1_live s H1 _ en Hn Ex) as (Hnode & Hpass & Hh & Hres).
+    repeat split; auto. apply Forall_app. split; [exact Hh|]. constructor; [|constructor]. unfold h_panics. cbn. exact Hb.
+  - reflexivity.
+Qed.
+
+Lemma do_exit_inv01 chains s e err :
+  (forall k, acct_chain (chains k)) -> Inv s -> Inv01 s -> Inv01 (fst (do_exit chains s e err)).
+Proof.
+  intros Hac HI H1. unfold do_exit. destruct (get_ent s e) as [en|] eqn:Eg; [|exact H1].
+  destruct (e_exited en) eqn:Ex; [exact H1|].
+  apply get_ent_some in Eg. destruct Eg as [He Hn].
+  destruct (i1_live s H1 _ en Hn Ex) as (Hnode & Hpass & Hh & Hres).
+  destruct (inv_live s HI _ en Hn Ex) as (Hc1 & Hc2 & Hc3 & Herr & _ & _ & Hr & Hi & Hb & Hst & Hrt & Hps).
+  rewrite (run_handlers_ok _ [] Hh).
+  destruct (Hac (e_chain en)) as (Hreal & Hfl).
+  set (c := e_ctx en) in *. set (x := ctxs s c) in *.
+  set (x1 := if err =? 0 then x else set_err x err).
+  assert (Hx1 : x_blk x1 = None /\ x_node x1 = true /\ x_res x1 = g_res en /\ x_inb x1 = g_inb en /\ x_batch x1 = g_batch en /\
+                x_start x1 = g_start en /\ x_err x1 = (if err =? 0 then g_err en else err)).
+  { assert (Hbk : x_blk x = None) by (rewrite Hpass in Hps; destruct (x_blk x); [discriminate|reflexivity]).
+    unfold x1. destruct (err =? 0); cbn; auto 10. }
+  destruct Hx1 as (Hk & Hn1 & Hr1 & Hi1 & Hb1 & Hst1 & He1).
+  cbv iota. rewrite Hk.
+  assert (Hs1 : Forall (fun s0 => ~ s_panics (x_flag x1) s0) (stats (chains (e_chain en)))) by (apply (Hfl (x_flag x1))).
+  pose proof (run_done_nodes (stats (chains (e_chain en))) x1 x1 (now s) (nodes s) (rev (map hcall (e_handlers en)) ++ [])
+                (conj eq_refl (conj eq_refl (conj eq_refl (conj eq_refl (conj eq_refl (conj eq_refl eq_refl)))))) Hs1) as Hnd.
+  destruct (run_done (stats (chains (e_chain en))) x1 (now s) (nodes s) (rev (map hcall (e_handlers en)) ++ [])) as [[nd lg] pan].
+  cbn in Hnd. cbn [fst]. rewrite Hreal in Hnd. cbn [iterl] in Hnd. subst nd.
+  constructor; cbn [ents ctxs nodes].
+  - intros i en' Hi' Hl. unfold set_ent in Hi'. destruct (Nat.eq_dec (Z.to_nat e) i) as [Heq|Hne].
+    + subst i. rewrite (nth_error_upd_nth_same _ _ _ _ Hn) in Hi'. injection Hi' as <-. discriminate.
+    + rewrite nth_error_upd_nth_other in Hi' by auto.
+      pose proof (live_ctx_distinct s i (Z.to_nat e) en' en HI Hi' Hn Hl Ex (not_eq_sym Hne)) as Hd. fold c in Hd.
+      rewrite upd_other by auto. apply (i1_live s H1 i en' Hi' Hl).
+  - intros k. unfold done_eff. rewrite on_nodes_at by (auto; lia). rewrite Hr1, Hi1, Hb1, Hst1, He1.
+    pose proof (i1_ledger s H1 k) as Hk0. unfold set_ent.
+    apply cnt_eq; unfold ledger; cbn [n_pass n_block n_done n_err n_rt n_gauge]; rewrite (wsum_upd_nth _ _ _ _ _ Hn);
+      destruct (hit (g_res en) (g_inb en) k) eqn:Eh; cbn [n_pass n_block n_done n_err n_rt n_gauge node_done]; rewrite Hk0;
+      unfold ledger; cbn [n_pass n_block n_done n_err n_rt n_gauge];
+      match goal with |- context [wsum ?f (ents s)] => generalize (wsum f (ents s)); intro end;
+      unfold w_pass, w_block, w_done, w_err, w_rt, w_gauge, member, mark_exited;
+      cbn [g_res g_inb g_passed e_exited g_batch g_err g_start g_end];
+      rewrite ?Eh, ?Hpass, ?Ex; destruct ((if err =? 0 then g_err en else err) =? 0); cbn; lia.
+Qed.
+
+Lemma step_inv01 chains s o :
+  (forall k, acct_chain (chains k)) -> ok_op o -> Inv s -> Inv01 s -> Inv01 (fst (step chains s o)).
+Proof.
+  intros Hac Hok HI H1. destruct o; cbn [step fst]; cbn in Hok.
+  - apply do_entry_inv01; auto.
+  - apply do_exit_inv01; auto.
+  - apply do_trace_inv01; auto.
+  - apply do_callee_inv01; auto.
+  - apply do_when_exit_inv01; auto.
+  - destruct H1. constructor; auto.
+  - exact H1.
+Qed.
+
+Lemma exec_inv01 chains ops s :
+  (forall k, acct_chain (chains k)) -> Forall ok_op ops -> Inv s -> Inv01 s -> Inv01 (exec chains s ops).
+Proof.
+  intros Hac. revert s. induction ops as [|o r IH]; intros s Hok HI H1; [exact H1|].
+  inversion Hok; subst. rewrite exec_cons. apply IH; auto; [apply step_inv|apply step_inv01]; auto.
+Qed.
+
+Lemma reachable_inv01 chains ops :
+  (forall k, acct_chain (chains k)) -> Forall ok_op ops -> Inv01 (exec chains init ops).
+Proof. intros Hac Hok. apply exec_inv01; auto; [apply inv_init|apply inv01_init]. Qed.
+
+(* ---------------------------------------------------------------------------------- *)
+(* the entry table is the list of Entry calls                                           *)
+
+Definition request := (Z * bool * Z)%type.          (* resource, inbound?, batch count *)
+Definition req_of (en : ent) : request := (g_res en, g_inb en, g_batch en).
+Definition requests (ops : list op) : list request :=
+  flat_map (fun o => match o with OEntry res inb batch _ _ _ _ => [(res, inb, batch)] | _ => [] end) ops.
+
+(* tokens requested from node k by a list of Entry calls *)
+Definition req_tokens (k : Z) (rs : list request) : Z :=
+  fold_right (fun r a => (let '(res, inb, batch) := r in if hit res inb k then batch else 0) + a) 0 rs.
+
+Lemma map_upd_nth_same {A B} (f : A -> B) n g (l : list A) :
+  (forall a, f (g a) = f a) -> map f (upd_nth n g l) = map f l.
+Proof. intros H. revert n. induction l as [|x r IH]; intros [|n]; cbn; auto; [rewrite H|rewrite IH]; reflexivity. Qed.
+
+Lemma do_entry_ents chains s res inb batch flag args chid pk :
+  exists en, ents (fst (do_entry chains s res inb batch flag args chid pk)) = ents s ++ [en] /\ req_of en = (res, inb, batch) /\
+             g_args en = args.
+Proof.
+  entry_sets chains s res inb batch flag args chid pk.
+  set (r := if r_nil r0 then passed_on_panic ch r0 else r0).
+  destruct (if r_nil r then None else x_blk (r_ctx r)); cbn [fst ents]; eexists; (split; [reflexivity|split; reflexivity]).
+Qed.
+
+Lemma step_requests chains s o :
+  map req_of (ents (fst (step chains s o))) = map req_of (ents s) ++ requests [o].
+Proof.
+  assert (Hid : map req_of (ents s) = map req_of (ents s) ++ []) by (rewrite app_nil_r; reflexivity).
+  destruct o; cbn [step fst requests flat_map app]; auto.
+  - destruct (do_entry_ents chains s res inb batch flag args chain pk) as (en & -> & Hr & _). rewrite map_app. cbn. rewrite Hr. reflexivity.
+  - unfold do_exit. destruct (get_ent s e) as [en|]; [|exact Hid]. destruct (e_exited en); [exact Hid|].
+    destruct (run_handlers (e_handlers en) []) as [lg1 pan1].
+    match goal with |- context [let '(nd2, lg2) := ?t in _] => destruct t as [nd2 lg2] end.
+    cbn [fst ents]. unfold set_ent. rewrite map_upd_nth_same by reflexivity. exact Hid.
+  - unfold do_trace. destruct (get_ent s e) as [en|]; [|exact Hid]. destruct ((err =? 0) || e_exited en); [exact Hid|].
+    cbn [with_ctx_ents ents]. unfold set_ent. rewrite map_upd_nth_same by reflexivity. exact Hid.
+  - unfold do_callee. destruct (get_ent s e) as [en|]; [|exact Hid]. destruct ((addr =? 0) || e_exited en); [exact Hid|].
+    cbn [with_ctx_ents ents]. unfold set_ent. rewrite map_upd_nth_same by reflexivity. exact Hid.
+  - unfold do_when_exit. destruct (get_ent s e) as [en|]; [|exact Hid].
+    cbn [with_ctx_ents ents]. unfold set_ent. rewrite map_upd_nth_same by reflexivity. exact Hid.
+Qed.
+
+Lemma requests_app a b : requests (a ++ b) = requests a ++ requests b.
+Proof. unfold requests. apply flat_map_app. Qed.
+
+Lemma exec_requests chains ops s :
+  map req_of (ents (exec chains s ops)) = map req_of (ents s) ++ requests ops.
+Proof.
+  revert s. induction ops as [|o r IH]; intros s; [cbn; rewrite app_nil_r; reflexivity|].
+  rewrite exec_cons, IH, step_requests, <- app_assoc. f_equal. change (o :: r) with ([o] ++ r). rewrite requests_app. reflexivity.
+Qed.
+
+Lemma wsum_req k es : wsum (w_req k) es = req_tokens k (map req_of es).
+Proof.
+  induction es as [|x r IH]; [reflexivity|]. cbn [map wsum fold_right req_tokens]. unfold wsum, req_tokens in IH. rewrite IH.
+  unfold w_req, member, req_of. reflexivity.
+Qed.
+
+(* ---------------------------------------------------------------------------------- *)
+(* statements of C01                                                                    *)
+
+Definition domain (chains : Z -> chain) (ops : list op) : Prop :=
+  (forall k, acct_chain (chains k)) /\ Forall ok_op ops.
+
+(* token conservation per node: pass + block = tokens requested by the Entry calls of the history *)
+Lemma token_conservation chains ops k :
+  domain chains ops ->
+  let s := exec chains init ops in
+  n_pass (nodes s k) = wsum (w_pass k) (ents s) /\
+  n_block (nodes s k) = wsum (w_block k) (ents s) /\
+  n_pass (nodes s k) + n_block (nodes s k) = req_tokens k (requests ops).
+Proof.
+  intros (Hac & Hok) s. pose proof (reachable_inv01 chains ops Hac Hok) as H1. fold s in H1.
+  rewrite (i1_ledger s H1 k). cbn [ledger n_pass n_block]. repeat split.
+  rewrite wsum_pass_block, wsum_req. unfold s. rewrite exec_requests. reflexivity.
+Qed.
+
+Lemma completion_exact chains ops k :
+  domain chains ops ->
+  let s := exec chains init ops in
+  n_done (nodes s k) = wsum (w_done k) (ents s) /\
+  n_err (nodes s k) = wsum (w_err k) (ents s) /\
+  n_rt (nodes s k) = wsum (w_rt k) (ents s).
+Proof.
+  intros (Hac & Hok) s. pose proof (reachable_inv01 chains ops Hac Hok) as H1. fold s in H1.
+  rewrite (i1_ledger s H1 k). cbn. auto.
+Qed.
+
+Definition quiescent (s : state) : Prop := forall en, In en (ents s) -> e_exited en = true.
+
+Lemma gauge_exact chains ops k :
+  domain chains ops ->
+  let s := exec chains init ops in
+  n_gauge (nodes s k) = wsum (w_gauge k) (ents s) /\ 0 <= n_gauge (nodes s k) /\
+  (quiescent s -> n_gauge (nodes s k) = 0).
+Proof.
+  intros (Hac & Hok) s. pose proof (reachable_inv01 chains ops Hac Hok) as H1. fold s in H1.
+  rewrite (i1_ledger s H1 k). cbn [ledger n_gauge]. split; [reflexivity|]. split.
+  - apply wsum_nonneg. intros en. unfold w_gauge. destruct (member k en && g_passed en && negb (e_exited en)); lia.
+  - intros Hq. apply wsum_zero. intros en Hin. unfold w_gauge. rewrite (Hq en Hin), andb_false_r. reflexivity.
+Qed.
+
+(* outcome: each Entry appends exactly one record, classified by what the caller was handed *)
+Lemma outcome_unique chains ops res inb batch flag args chid pk :
+  domain chains ops -> 
+  let s := exec chains init ops in
+  exists en, ents (fst (do_entry chains s res inb batch flag args chid pk)) = ents s ++ [en] /\
+    req_of en = (res, inb, batch) /\
+    ((exists c lg, snd (do_entry chains s res inb batch flag args chid pk) = REntered (Z.of_nat (length (ents s))) c lg /\
+                   g_passed en = true /\ e_exited en = false) \/
+     (exists c be lg, snd (do_entry chains s res inb batch flag args chid pk) = RBlocked c be lg /\
+                   g_passed en = false /\ e_exited en = true)).
+Proof.
+  intros (Hac & Hok) s.
+  pose proof (reachable_inv chains ops) as HI. fold s in HI.
+  destruct (do_entry_ents chains s res inb batch flag args chid pk) as (en & Hents & Hreq & _).
+  destruct (do_entry_new_ent chains s res inb batch flag args chid pk HI) as (en' & Hn & _ & _ & _ & _ & _ & _ & _ & _ & Hm).
+  rewrite Hents, nth_error_app2, Nat.sub_diag in Hn by lia. cbn in Hn. injection Hn as <-.
+  exists en. split; [exact Hents|]. split; [exact Hreq|].
+  destruct (do_entry_total chains s res inb batch flag args chid pk) as [(c & lg & Hob)|(c & be & lg & Hob & _)]; rewrite Hob in Hm.
+  - left. exists c, lg. destruct Hm as (_ & _ & Hx & _ & Hp). repeat split; auto. apply Hp. apply (Hac chid).
+  - right. exists c, be, lg. destruct Hm as (Hx & Hp). auto.
+Qed.
+
+(* Exit twice = Exit once *)
+Lemma exit_twice chains s e err err' en :
+  get_ent s e = Some en ->
+  do_exit chains (fst (do_exit chains s e err)) e err' = (fst (do_exit chains s e err), RCalls []).
+Proof.
+  intros Hg. destruct (do_exit_exits chains s e err en Hg) as (en' & Hg' & Hx'). eapply do_exit_late; eauto.
+Qed.
+
+(* frame: an operation that is not a call on entry i leaves i's record untouched *)
+Definition target (o : op) : option Z :=
+  match o with
+  | OExit e _ | OTrace e _ | OCallee e _ | OWhenExit e _ _ => Some e
+  | _ => None
+  end.
+
+Lemma nth_error_set_ent_other s e g i :
+  (0 <= e -> Z.to_nat e <> i) -> nth_error (set_ent s e g) i = nth_error (ents s) i \/ e < 0.
+Proof.
+  intros H. destruct (Z_lt_dec e 0); [right; auto|left]. unfold set_ent. apply nth_error_upd_nth_other. apply H. lia.
+Qed.
+
+Lemma get_ent_neg s e : e < 0 -> get_ent s e = None.
+Proof. intros H. unfold get_ent. destruct (e <? 0) eqn:E; [reflexivity|lia]. Qed.
+
+Lemma step_other_ent chains s o i en :
+  nth_error (ents s) i = Some en -> target o <> Some (Z.of_nat i) ->
+  nth_error (ents (fst (step chains s o))) i = Some en.
+Proof.
+  intros Hi Ht.
+  assert (Hne : forall e, target o = Some e -> 0 <= e -> Z.to_nat e <> i).
+  { intros e He H0 Heq. apply Ht. rewrite He. f_equal. lia. }
+  destruct o; cbn [step fst]; cbn [target] in Hne; auto.
+  - destruct (do_entry_ents chains s res inb batch flag args chain pk) as (en' & -> & _).
+    rewrite nth_error_app1; [exact Hi|]. apply nth_error_Some. congruence.
+  - unfold do_exit. destruct (get_ent s e) as [en0|] eqn:Eg; [|exact Hi]. destruct (e_exited en0); [exact Hi|].
+    destruct (run_handlers (e_handlers en0) []) as [lg1 pan1].
+    match goal with |- context [let '(nd2, lg2) := ?t in _] => destruct t as [nd2 lg2] end.
+    cbn [fst ents]. apply get_ent_some in Eg. destruct Eg as [He _].
+    unfold set_ent. rewrite nth_error_upd_nth_other; [exact Hi|]. apply (Hne e eq_refl He).
+  - unfold do_trace. destruct (get_ent s e) as [en0|] eqn:Eg; [|exact Hi]. destruct ((err =? 0) || e_exited en0); [exact Hi|].
+    cbn [with_ctx_ents ents]. apply get_ent_some in Eg. destruct Eg as [He _].
+    unfold set_ent. rewrite nth_error_upd_nth_other; [exact Hi|]. apply (Hne e eq_refl He).
+  - unfold do_callee. destruct (get_ent s e) as [en0|] eqn:Eg; [|exact Hi]. destruct ((addr =? 0) || e_exited en0); [exact Hi|].
+    cbn [with_ctx_ents ents]. apply get_ent_some in Eg. destruct Eg as [He _].
+    unfold set_ent. rewrite nth_error_upd_nth_other; [exact Hi|]. apply (Hne e eq_refl He).
+  - unfold do_when_exit. destruct (get_ent s e) as [en0|] eqn:Eg; [|exact Hi].
+    cbn [with_ctx_ents ents]. apply get_ent_some in Eg. destruct Eg as [He _].
+    unfold set_ent. rewrite nth_error_upd_nth_other; [exact Hi|]. apply (Hne e eq_refl He).
+Qed.
+
+(* what a caller holding entry i sees through e.Context() *)
+Definition view (x : ctx) : Z * list Z * Z := (x_err x, x_args x, x_addr x).
+
+Lemma live_view_own s i en :
+  Inv s -> nth_error (ents s) i = Some en -> e_exited en = false ->
+  view (ctxs s (e_ctx en)) = (g_err en, g_args en, g_addr en) /\ x_entry (ctxs s (e_ctx en)) = Z.of_nat i.
+Proof.
+  intros HI Hi Hl. destruct (inv_live s HI i en Hi Hl) as (_ & _ & Hx & He & Ha & Hd & _). unfold view. rewrite He, Ha, Hd. auto.
+Qed.
+
+Lemma live_view_stable chains s o i en :
+  Inv s -> nth_error (ents s) i = Some en -> e_exited en = false -> target o <> Some (Z.of_nat i) ->
+  let s' := fst (step chains s o) in
+  nth_error (ents s') i = Some en /\ view (ctxs s' (e_ctx en)) = view (ctxs s (e_ctx en)).
+Proof.
+  intros HI Hi Hl Ht s'. pose proof (step_other_ent chains s o i en Hi Ht) as Hi'. fold s' in Hi'. split; [exact Hi'|].
+  assert (HI' : Inv s') by (apply step_inv; exact HI).
+  destruct (live_view_own s i en HI Hi Hl) as [-> _]. destruct (live_view_own s' i en HI' Hi' Hl) as [-> _]. reflexivity.
+Qed.
+
+(* ---------------------------------------------------------------------------------- *)
+(* many goroutines, at call granularity: every interleaving of per-goroutine call sequences is
+   a history                                                                            *)
+
+Inductive interleaves : list (list op) -> list op -> Prop :=
+| il_done ths : Forall (fun t => t = []) ths -> interleaves ths []
+| il_step ths1 o t ths2 h :
+    interleaves (ths1 ++ t :: ths2) h -> interleaves (ths1 ++ (o :: t) :: ths2) (o :: h).
+
+Lemma interleaves_ok ths h :
+  interleaves ths h -> Forall (Forall ok_op) ths -> Forall ok_op h.
+Proof.
+  induction 1 as [ths Hn|ths1 o t ths2 h Hi IH]; intros Hok; [constructor|].
+  apply Forall_app in Hok. destruct Hok as [H1 H2]. inversion H2 as [|? ? Hot H3]; subst. inversion Hot; subst.
+  constructor; [assumption|]. apply IH. apply Forall_app. split; [exact H1|]. constructor; assumption.
+Qed.
+
+(* ---------------------------------------------------------------------------------- *)
+(* packaged statements                                                                  *)
+
+Lemma exit_idempotent chains s e en :
+  get_ent s e = Some en ->
+  (e_exited en = true ->
+     forall err a, do_exit chains s e err = (s, RCalls []) /\ do_trace s e err = s /\ do_callee s e a = s) /\
+  (forall err err', do_exit chains (fst (do_exit chains s e err)) e err' = (fst (do_exit chains s e err), RCalls [])).
+Proof.
+  intros Hg. split.
+  - intros Hx err a. repeat split; [eapply do_exit_late|eapply do_trace_late|eapply do_callee_late]; eauto.
+  - intros err err'. eapply exit_twice; eauto.
+Qed.
+
+Lemma live_context_stable chains ops i en :
+  let s := exec chains init ops in
+  nth_error (ents s) i = Some en -> e_exited en = false ->
+  (view (ctxs s (e_ctx en)) = (g_err en, g_args en, g_addr en) /\ x_entry (ctxs s (e_ctx en)) = Z.of_nat i) /\
+  (forall j en', nth_error (ents s) j = Some en' -> e_exited en' = false -> i <> j -> e_ctx en <> e_ctx en') /\
+  forall o, target o <> Some (Z.of_nat i) ->
+    let s' := fst (step chains s o) in
+    nth_error (ents s') i = Some en /\ view (ctxs s' (e_ctx en)) = view (ctxs s (e_ctx en)).
+Proof.
+  intros s Hi Hl. pose proof (reachable_inv chains ops) as HI. fold s in HI. split; [|split].
+  - apply live_view_own; auto.
+  - intros j en' Hj Hl' Hne. apply (live_ctx_distinct s i j en en' HI Hi Hj Hl Hl' Hne).
+  - intros o Ht. apply live_view_stable; auto.
+Qed.
+
+Lemma interleaving_ledger chains ths h k :
+  (forall k, acct_chain (chains k)) -> Forall (Forall ok_op) ths -> interleaves ths h ->
+  let s := exec chains init h in
+  nodes s k = ledger k (ents s) /\
+  n_pass (nodes s k) + n_block (nodes s k) = req_tokens k (requests h) /\
+  0 <= n_gauge (nodes s k) /\ (quiescent s -> n_gauge (nodes s k) = 0).
+Proof.
+  intros Hac Hok Hil s. pose proof (interleaves_ok ths h Hil Hok) as Hh.
+  assert (Hd : domain chains h) by (split; auto).
+  destruct (token_conservation chains h k Hd) as (_ & _ & Ht).
+  destruct (gauge_exact chains h k Hd) as (_ & Hg0 & Hgq).
+  split; [apply (i1_ledger _ (reachable_inv01 chains h Hac Hh))|]. auto.
+Qed.
+
+(* finding C01-F1: a prepare slot that panics before the resource node is prepared *)
+Definition f1_chain : chain :=
+  build [ SP {| p_id := 1; p_ord := 0; p_behs := [PPanic] |};
+          SP {| p_id := 2; p_ord := 1000; p_behs := [PNode] |};
+          SS {| s_id := 3; s_ord := 1000; s_real := true; s_behs := [] |} ].
+Definition f1_ops : list op := [OEntry 0 false 1 0 [] 0 (-1); OSnap [0]].
+
+Lemma token_conservation_refuted :
+  exists chains ops,
+    (forall k, nreal (stats (chains k)) = 1%nat /\ forall flag, no_stat_panic (chains k) flag) /\ Forall ok_op ops /\
+    let s := exec chains init ops in
+    (exists e c lg, snd (do_entry chains init 0 false 1 0 [] 0 (-1)) = REntered e c lg) /\
+    n_pass (nodes s 0) + n_block (nodes s 0) = 0 /\ req_tokens 0 (requests ops) = 1.
+Proof.
+  exists (fun _ => f1_chain), f1_ops. split; [|split].
+  - intros _. split; [reflexivity|]. intros flag. unfold no_stat_panic. vm_compute stats. repeat constructor.
+    unfold s_panics, sbeh_of. cbn. discriminate.
+  - repeat constructor; cbn; lia.
+  - cbv zeta. split; [vm_compute; eauto|]. split; vm_compute; reflexivity.
+Qed.
+
+Lemma pick_single {A} (d a : A) flag : pick d [a] flag = a.
+Proof. unfold pick. cbn [length]. change (Z.of_nat 1) with 1. rewrite Z.mod_1_r. reflexivity. Qed.
